@@ -15,6 +15,7 @@ import (
 	"encoding/pem"
 	"fmt"
 	"math/big"
+	"net"
 	"os"
 	"strconv"
 	"strings"
@@ -287,9 +288,25 @@ func (c *memCache) Put(k string, v []byte) error {
 	return nil
 }
 
+// ticketKeyFile returns the 48 bytes of the session ticket key file for key number n: 16 bytes key
+// name + 32 bytes key material.  Keys 1 and 2 share the NAME and differ in the material (a rotation
+// that keeps the name), key 3 has another name.
+func ticketKeyFile(n int) []byte {
+	nameIdx := n
+	switch n {
+	case 2:
+		nameIdx = 1
+	case 3:
+		nameIdx = 2
+	}
+	name := sha256.Sum256([]byte(fmt.Sprintf("verif ticket key name %d", nameIdx)))
+	mat := sha256.Sum256([]byte(fmt.Sprintf("verif ticket key %d", n)))
+	return append(append([]byte{}, name[:16]...), mat[:]...)
+}
+
 func ticketKey(n int) (k [32]byte) {
-	h := sha256.Sum256([]byte(fmt.Sprintf("verif ticket key %d", n)))
-	return h
+	copy(k[:], ticketKeyFile(n)[16:])
+	return k
 }
 
 func caIdx(n int) int {
@@ -337,8 +354,10 @@ func buildServer(sv *ServerSpec, caches map[int]*memCache) *bfe_tls.Config {
 		cfg.ClientAuth = bfe_tls.RequireAndVerifyClientCert
 	}
 	// resumption
-	if sv.Key > 0 {
-		cfg.SessionTicketKey = ticketKey(sv.Key)
+	if sv.Key > 0 { // as BfeServer.initTLSSessionTicket does with the key file
+		kf := ticketKeyFile(sv.Key)
+		copy(cfg.SessionTicketKeyName[:], kf[:16])
+		copy(cfg.SessionTicketKey[:], kf[16:])
 	}
 	cfg.SessionTicketsDisabled = !sv.Tickets
 	if sv.Cache > 0 && caches != nil {
@@ -483,6 +502,12 @@ var connTimeout = func() time.Duration {
 
 // runConn performs one connection: handshake + 1 KiB echo in both directions.
 func runConn(cfg *bfe_tls.Config, cl *ClientSpec, goOffer *tls.ClientSessionState, rawOffer *rawSession, seed int64) (res connResult) {
+	return runConnVia(func(sc net.Conn) *bfe_tls.Conn { return bfe_tls.Server(sc, cfg) }, cl, goOffer, rawOffer, seed)
+}
+
+// runConnVia is runConn with the server side of the connection produced by serverFor (directly, or by
+// accepting it on a bfe_server.HttpsListener).
+func runConnVia(serverFor func(net.Conn) *bfe_tls.Conn, cl *ClientSpec, goOffer *tls.ClientSessionState, rawOffer *rawSession, seed int64) (res connResult) {
 	cc, sc := bufPipe()
 	dl := time.Now().Add(connTimeout)
 	cc.SetDeadline(dl)
@@ -499,7 +524,7 @@ func runConn(cfg *bfe_tls.Config, cl *ClientSpec, goOffer *tls.ClientSessionStat
 	go func() {
 		defer wg.Done()
 		sPanic = vh.Guard(func() {
-			s := bfe_tls.Server(sc, cfg)
+			s := serverFor(sc)
 			err := s.Handshake()
 			if err != nil {
 				o.SErr = err.Error()
